@@ -38,6 +38,8 @@ def table(ctx, rep):
     if not tiny_idx or tt is None:
         return
     rep.check("R7.1", "TinyType::None=0", tt["None"] == 0, "TinyType::None must be sub-type 0 (found %s)" % tt["None"], b.loc())
+    from mirq import inline_calls
+    b = inline_calls(b, lambda d: d.startswith("insim::") or d.startswith("<insim::"), depth=3)
     rows = b.decision_rows()
     some = [r for r in rows if r[1][1] == "Some"]
     none = [r for r in rows if r[1][1] == "None"]
